@@ -81,7 +81,7 @@ func tierRuns(prop, tier string) (plain, race int) {
 		"C05": {30000, 0}, "C06": {30000, 0}, "C07": {30000, 0}, "C08": {40000, 0}, "C09": {24000, 6000},
 	}
 	thorough := map[string][2]int{
-		"C05": {2000000, 100000}, "C06": {2500000, 0}, "C07": {2000000, 0}, "C08": {3000000, 100000}, "C09": {2000000, 400000},
+		"C05": {2000000, 100000}, "C06": {2500000, 0}, "C07": {2000000, 0}, "C08": {3000000, 100000}, "C09": {1000000, 200000},
 	}
 	m := quick
 	if tier == "thorough" {
